@@ -196,6 +196,23 @@ def worker(job):
                        'claims_proved_unsat': res.discharged, 'z3_queries': res.stats['queries']}]}
 
 
+def replay(data):
+  """./run.py C01 --replay FILE : re-runs the recorded composition on the recorded values with real numpy on the current /repo."""
+  import ast
+  job = ast.literal_eval(data['job']) if isinstance(data['job'], str) else data['job']
+  values = ast.literal_eval(data['values']) if isinstance(data['values'], str) else data['values']
+  if job[0] == 'FixedSizeSample':
+    print('FixedSizeSample counterexamples depend on the RNG stub; re-run ./run.py C01 --only FixedSizeSample'); return 2
+  name, n, comp = job
+  spec = _spec(name, data.get('tier', 'quick'))
+  out = srun.run_concrete(make_build(spec, n, comp), dict(values))
+  a, b = ('rows_split', 'rows_whole') if data['claim'].startswith('row-') else ('split', 'whole')
+  ok = symx.concrete_close(out[a], out[b])
+  print(f'{a}={out[a]!r}\n{b}={out[b]!r}'[:1500])
+  print('NOT-REPRODUCED' if ok else 'REPRODUCED')
+  return 0 if ok else 1
+
+
 def classify(r, f):
   name = r['job'][0]
   if name == 'TopKRetrievalRagged':
